@@ -94,6 +94,27 @@ example : AwsVerif.Gen.HashValid.stateValidInt 4 3 3 3 = true ∧ AwsVerif.Gen.H
     AwsVerif.Gen.HashValid.stateValidInt 6 1 5 5 = false ∧ AwsVerif.Gen.HashValid.stateValidInt 4 1 3 7 = false ∧
     AwsVerif.Gen.HashValid.stateValidInt 4 1 4 3 = false ∧ AwsVerif.Gen.HashValid.stateValidInt 1 0 0 0 = false := by decide
 
+/-- the library's own `aws_hash_iter_is_valid` — its tail after the NULL / table-validity tests (the `limit > size` test and
+the switch over the status, cut out of hash_table.c and re-translated on every run) — accepts the iterator returned by
+`aws_hash_iter_begin` on every table, and the one returned by `aws_hash_iter_next` from every iterator whose limit is within
+the table: DONE exactly at `slot = limit`, READY_FOR_USE at an occupied slot below the limit.  `slotHash` stands for the
+`hash_code` field: any function that is non-zero exactly on occupied slots. -/
+theorem c02_iter_valid (t : Table) (it : Iter) (slotHash : Nat → Nat)
+    (hh : ∀ i, slotHash i ≠ 0 ↔ (rd t.slots i).isSome = true) :
+    AwsVerif.Gen.HashValid.iterValidInt (iterBegin t).limit t.size (statusCode (iterBegin t).status) (iterBegin t).slot
+      (slotHash (iterBegin t).slot) = true ∧
+    (it.limit ≤ t.size →
+      AwsVerif.Gen.HashValid.iterValidInt (iterNext t it).limit t.size (statusCode (iterNext t it).status) (iterNext t it).slot
+        (slotHash (iterNext t it).slot) = true) :=
+  ⟨getNext_iterValid t _ 0 (Nat.le_refl _) slotHash hh, fun hl => getNext_iterValid t it _ hl slotHash hh⟩
+
+/-- the translated iterator predicate is not constant: READY at an empty slot, DONE away from the limit, a limit beyond the
+table and an unknown status are rejected; the underflowed slot after a delete at slot 0 is accepted -/
+example : AwsVerif.Gen.HashValid.iterValidInt 8 8 2 3 0 = false ∧ AwsVerif.Gen.HashValid.iterValidInt 8 8 2 3 5 = true ∧
+    AwsVerif.Gen.HashValid.iterValidInt 8 8 0 3 5 = false ∧ AwsVerif.Gen.HashValid.iterValidInt 9 8 0 9 0 = false ∧
+    AwsVerif.Gen.HashValid.iterValidInt 8 8 3 3 5 = false ∧
+    AwsVerif.Gen.HashValid.iterValidInt 7 8 1 18446744073709551615 0 = true := by decide
+
 /-- deletion through an iterator that is ready for use keeps the invariant, removes exactly the element the
 iterator shows, and calls the destructors on exactly that element iff `destroy_contents`; `aws_hash_table_foreach`
 with any callback (any flag word per key: continue / delete / stop / error) keeps the invariant -/
